@@ -21,7 +21,7 @@ WHOLE = re.compile(r"^(skinny(128|64)_(LFSR[23](_\w+)?|sbox(_\w+)?|inv_sbox(_\w+
                    r"_skinny_has_vec(128|256)|(skinny(128|64)|mantis)_ctr_increment(@.*)?|"
                    r"(skinny128_(inv_)?sbox_four|skinny64_(inv_)?sbox|skinny(128|64)_rotate_right)@skinny(128|64)-parallel-vec(128|256)\.c|"
                    r"(skinny128_sbox_(four|two)|skinny128_rotate_right)@skinny128-ctr-vec(128|256)\.c|(skinny64_sbox|skinny64_rotate_right)@skinny64-ctr-vec128\.c|"
-                   r"mantis_(sbox|update_tweak|update_tweak_inverse|shift_rows|shift_rows_inverse|mix_columns)@mantis-parallel-vec128\.c)$")
+                   r"mantis_(sbox|update_tweak|update_tweak_inverse|shift_rows|shift_rows_inverse|mix_columns)@mantis-(parallel|ctr)-vec128\.c)$")
 
 # which properties depend on which hand-modelled functions
 RULES = [
